@@ -5,6 +5,7 @@ client whose block raises at a seeded point, decided by comparing the complete
 contents and the directory before and after.  DESIGN.md section 9, C06."""
 import copy
 import json
+import os
 import random
 
 from .. import conc, kvmodel, lin, vals
@@ -24,8 +25,9 @@ RULE = ('one evaluation = one seeded run: either 2-3 clients (shared object / ow
         'Cache/Deque/Index/FanoutCache raises at a seeded point, checked for unchanged contents (keys, values, expiry, tags, '
         'counts) and a clean directory; non-trivial = a context switch happened or a block aborted after at least one write; '
         'distinct = SHA-256 of the seam event log')
+RULE += ' ' + 'A quarter of the abort cases first make a block entry give up while it waits for a foreign write lock.'
 ASSUMPTIONS = ['FanoutCache blocks are additionally checked against the weaker per-shard-atomic model to tell the known finding F8 from any other failure']
-PROBES = ('blocks_committed', 'blocks_aborted', 'nested_block', 'abort_after_file_write', 'other_thread_timeout', 'lock_wait')
+PROBES = ('blocks_committed', 'blocks_aborted', 'nested_block', 'abort_after_file_write', 'other_thread_timeout', 'lock_wait', 'entry_interrupted')
 TECHNIQUE = 'deterministic simulation: seeded schedules + raise-point injection; linearizability with blocks as atomic multi-step operations; before/after state comparison for aborts'
 LEVEL_TEXT = ('seeded exploration of block bodies x raise points x interleavings on real SQLite and files under the simulator; '
               'isolation/atomicity decided by a linearizability search, abort-restores-everything by full state and directory '
@@ -284,7 +286,7 @@ def gen_abort_case(rng, seed, target, mfs, big_n, keys):
     if rng.random() < 0.8:
         blk['raise_at'] = rng.randint(0, len(body)); blk['raise_kind'] = rng.choice(('exc', 'base'))
     cfg = {'target': target, 'settings': {'disk_min_file_size': mfs}, 'kind': 'abort', 'shards': rng.choice((2, 3)),
-           'maxlen': rng.choice((None, None, 3))}
+           'maxlen': rng.choice((None, None, 3)), 'interrupted_entry': rng.random() < 0.25}
     return {'seed': seed, 'cfg': cfg, 'progs': {'c0': pre + [blk]}, 'faults': []}
 
 
@@ -318,6 +320,27 @@ def run_abort_case(case):
         for op in prog[:-1]:
             run_op(target, op)
         blk = prog[-1]
+        if cfg.get('interrupted_entry'):
+            # an earlier block of this thread never got in: while it waited for the write lock (held by another connection)
+            # the wait was cut short by an exception from outside (a job timeout, Ctrl-C).  Blocks entered later are
+            # transactions like any other.
+            import sqlite3
+            from .. import seams
+            sim = world.sim
+            d = directories(target, kind)[-1]
+            holder = sqlite3.connect(os.path.join(d, 'cache.db'), timeout=0, isolation_level=None)
+            holder.execute('BEGIN IMMEDIATE')
+            saved = sim.hcap
+            sim.hcap = sim.hsteps + 300
+            try:
+                with target.transact(retry=True) if kind in ('cache', 'fanout') else target.transact():
+                    violations.append({'rule': 'C06/block-entered-under-foreign-lock', 'sig': kind, 'detail': ''})
+            except seams.NoProgress:
+                probes['entry_interrupted'] = 1
+            finally:
+                sim.hcap = saved
+                holder.execute('ROLLBACK')
+                holder.close()
         before = snapshot(dc, target, kind)
         dirs = directories(target, kind)
         before_audit = [audit(d) for d in dirs]
